@@ -24,7 +24,8 @@ def main():
     check, inp, outp = sys.argv[1:4]
     import qv  # noqa: F401  (installs the arena cache)
     faulthandler.enable()
-    faulthandler.dump_traceback_later(1500, exit=False)
+    # (no dump_traceback_later: its watchdog dump took a long-running thorough shard down with SIGSEGV; every case has its
+    # own SIGALRM watchdog below and the pool has a deadline for the shard)
     sys.setrecursionlimit(3000)
     mod = importlib.import_module(f'qv.checks.{check}')
     with open(inp) as f:
